@@ -84,10 +84,35 @@ type seqOut struct {
 	Events     int                 `json:"events"`
 	Infra      string              `json:"infra,omitempty"`
 	Ms         int64               `json:"ms"`
+	// a later child got no answer although every earlier child had hung up (the real code is stuck, not the harness)
+	Blocked *blockedObs `json:"blocked,omitempty"`
+	Killed  bool        `json:"killed,omitempty"`  // the parent worker was killed after a wait ran out; the next behaviour gets a fresh one
+	Stopped *stopInfo   `json:"stopped,omitempty"` // last record of a run that stopped early
 	// real signals do not queue: a second kill() issued before the first SIGTERM was picked up is merged by the OS / the Go
 	// runtime.  Counted here (not in Calls) when two terminates are adjacent with no driver action in between.
 	CoalescedTerms int `json:"coalescedTerms,omitempty"`
 }
+
+// blockedObs: what was observed when a child whose predecessors had all hung up got no answer in time.
+type blockedObs struct {
+	Child     int      `json:"child"`     // the child that waited
+	Step      string   `json:"step"`      // the request it waited for
+	Waited    string   `json:"waited"`    // "step" (the Instance call never came) or "reply"
+	Where     string   `json:"where"`     // "behaviour" or "later child after the behaviour"
+	Dropped   []int    `json:"dropped"`   // children that had hung up before
+	Performed []string `json:"performed"` // steps the old process had performed so far in this run
+	Deadline  string   `json:"deadline"`
+}
+
+type stopInfo struct {
+	After int    `json:"after"` // behaviours replayed
+	Hangs int    `json:"hangs"`
+	Why   string `json:"why"`
+}
+
+// the parent worker's log is bounded: a busy loop that logs per iteration must not fill the disk
+const maxParentLog = 3 << 20
+const maxParentLogImportant = 1 << 20
 
 // ---- the re-exec'ed parent process
 
@@ -125,7 +150,7 @@ func startParent(logPath string, hook bool) (*parentProc, error) {
 		return nil, err
 	}
 	cmd := exec.Command(exe, "c17-parent")
-	cmd.Stdout, cmd.Stderr = lw, lf
+	cmd.Stdout, cmd.Stderr = lw, lw
 	cmd.ExtraFiles = []*os.File{cr, ew}
 	if err := cmd.Start(); err != nil {
 		return nil, err
@@ -136,20 +161,41 @@ func startParent(logPath string, hook bool) (*parentProc, error) {
 	p := &parentProc{cmd: cmd, cmdW: cw, calls: make(chan pev, 4096), terms: make(chan pev, 4096), ctl: make(chan pev, 256),
 		dead: make(chan struct{}), log: logPath}
 	go func() {
-		// the samaritan logger writes to stdout; a rejected frame is logged before the loop reads again
+		// stdout = the samaritan logger (a rejected frame is logged before the loop reads again), stderr = panics.
+		// Everything is read (the worker must never block on its log) but only the first maxParentLog bytes are
+		// kept, plus up to maxParentLogImportant bytes of crash lines arriving later.
 		defer lf.Close()
 		sc := bufio.NewScanner(lr)
 		sc.Buffer(make([]byte, 1<<16), 1<<20)
 		w := bufio.NewWriter(lf)
 		defer w.Flush()
+		kept, keptImp, dropped := 0, 0, 0
 		for sc.Scan() {
+			t := sc.Text()
 			// only the two rejections of readMessage (rpc.go:163,169); a reset connection is logged by the same line
-			if t := sc.Text(); strings.Contains(t, "Read msg from child failed") &&
+			if strings.Contains(t, "Read msg from child failed") &&
 				(strings.Contains(t, "incomplete data") || strings.Contains(t, "invalid header")) {
 				atomic.AddInt64(&p.warns, 1)
 			}
-			w.Write(sc.Bytes())
+			switch {
+			case kept+len(t) < maxParentLog:
+				kept += len(t) + 1
+			case keptImp+len(t) < maxParentLogImportant && (strings.HasPrefix(t, "panic:") || strings.HasPrefix(t, "fatal error:") ||
+				strings.HasPrefix(t, "goroutine ") || strings.Contains(t, "hotrestart") && !strings.Contains(t, "Read msg from child failed")):
+				keptImp += len(t) + 1
+			default:
+				if dropped == 0 {
+					w.WriteString("[c17: log capped here, further lines dropped]\n")
+					w.Flush()
+				}
+				dropped++
+				continue
+			}
+			w.WriteString(t)
 			w.WriteByte('\n')
+		}
+		if dropped > 0 {
+			fmt.Fprintf(w, "[c17: %d lines dropped]\n", dropped)
 		}
 	}()
 	go func() {
@@ -209,6 +255,16 @@ func (p *parentProc) waitCtl(kind string, d time.Duration) (pev, error) {
 			return pev{}, fmt.Errorf("no %q from the parent within %s", kind, d)
 		}
 	}
+}
+
+// kill ends the worker at once (used when a wait on the real code ran out: never keep a stuck or spinning process).
+func (p *parentProc) kill() {
+	p.cmd.Process.Kill()
+	select {
+	case <-p.dead:
+	case <-time.After(3 * time.Second):
+	}
+	p.cmdW.Close()
 }
 
 func (p *parentProc) stop() {
@@ -324,6 +380,29 @@ func readReply(c *net.UnixConn, d time.Duration) rdRes {
 	return rdRes{name: nm}
 }
 
+// lineWriter writes one JSON object per line straight to the file: a record is on disk when Write returns,
+// so nothing is lost if the driver is killed by the outer timeout of the check.
+type lineWriter struct{ f *os.File }
+
+func newLineWriter(path string) (*lineWriter, error) {
+	f, err := os.Create(path)
+	if err != nil {
+		return nil, err
+	}
+	return &lineWriter{f: f}, nil
+}
+
+func (w *lineWriter) Write(v interface{}) error {
+	b, err := json.Marshal(v)
+	if err != nil {
+		return err
+	}
+	_, err = w.f.Write(append(b, '\n'))
+	return err
+}
+
+func (w *lineWriter) Close() error { return w.f.Close() }
+
 // ---- driver
 
 type driver struct {
@@ -334,8 +413,11 @@ type driver struct {
 	badIdx  int
 	unkIdx  int
 	hook    bool
-	trace   *cli.NDJSONWriter
-	tmo     time.Duration
+	trace   *lineWriter
+	tmo     time.Duration // deadline of every single wait on the real code (normally it answers within a millisecond)
+	behTmo  time.Duration // deadline of a whole behaviour
+	hangs   int           // behaviours in which a later child was blocked
+	done    int
 }
 
 func (d *driver) ensureParent() error {
@@ -360,8 +442,38 @@ type run struct {
 	waitAt map[int]bool // child has an unanswered request
 	lenientTerm bool    // real signal, previous terminate not separated from this one by any driver action
 	stash  []pev        // gated calls that arrived early (not released yet), kept for their own event
+	dropped  []int      // children that have hung up so far
+	deadline time.Time  // of the whole behaviour
 	inEpi  bool         // the later child of the epilogue is running: its calls are kept apart
 	exited bool         // the parent was shut down (exit event)
+}
+
+// blocked records that child c got no answer in time.  It is a finding about the real code (not about the
+// harness) when every earlier child had hung up and the process is still running.
+func (r *run) blocked(c int, step, waited, where string) {
+	if r.out.Blocked != nil || r.out.ParentDied || r.d.p.isDead() || r.exited {
+		return
+	}
+	earlier := []int{}
+	for _, d := range r.dropped {
+		if d != c {
+			earlier = append(earlier, d)
+		}
+	}
+	if len(earlier) == 0 {
+		return
+	}
+	for oc := range r.conns {
+		if oc != c {
+			return // another child is still connected: waiting behind it is what the code is meant to do
+		}
+	}
+	perf := append([]string{}, r.out.Calls...)
+	if r.inEpi {
+		perf = append(perf, r.out.Epilogue.Calls...)
+	}
+	r.out.Blocked = &blockedObs{Child: c, Step: step, Waited: waited, Where: where, Dropped: earlier,
+		Performed: perf, Deadline: r.d.tmo.String()}
 }
 
 func (r *run) note(k, f string, a ...interface{}) {
@@ -634,6 +746,7 @@ func (r *run) drop(c int, replyUnread bool) {
 	conn.Close()
 	delete(r.conns, c)
 	delete(r.waitAt, c)
+	r.dropped = append(r.dropped, c)
 	r.log("drop", c, "")
 }
 
@@ -716,7 +829,8 @@ func (d *driver) replay(b *behIn) seqOut {
 		out.Infra = "hotrestart.New: " + err.Error()
 		return out
 	}
-	r := &run{d: d, out: &out, conns: map[int]*net.UnixConn{}, sock: hotrestart.VerifSocketName(id), waitAt: map[int]bool{}}
+	r := &run{d: d, out: &out, conns: map[int]*net.UnixConn{}, sock: hotrestart.VerifSocketName(id), waitAt: map[int]bool{},
+		deadline: time.Now().Add(d.behTmo)}
 	maxChild, exited := 0, false
 	replied := map[int]bool{} // the behaviour says: a reply for child c is in flight, unread
 	termsSeen, sentSinceKill := 0, false
@@ -734,6 +848,10 @@ func (d *driver) replay(b *behIn) seqOut {
 		}
 		if len(out.Issues) > 0 {
 			// the first deviation ends the replay of a behaviour: what follows would only be its echo
+			r.abort = true
+		}
+		if !r.abort && time.Now().After(r.deadline) {
+			r.note("behaviour-deadline", "the behaviour was not through after %s (at event %d: %s %d %s)", d.behTmo, i, e.A, e.C, e.X)
 			r.abort = true
 		}
 		if r.abort || i == skip {
@@ -806,6 +924,9 @@ func (d *driver) replay(b *behIn) seqOut {
 			}
 			r.lenientTerm = e.A == "kill" && !d.hook && termsSeen > 0 && !sentSinceKill
 			got := r.expectCall(e.X, next)
+			if got == "" && !r.lenientTerm {
+				r.blocked(e.C, e.X, "step", "behaviour")
+			}
 			r.lenientTerm = false
 			if e.A == "kill" {
 				termsSeen++
@@ -823,6 +944,7 @@ func (d *driver) replay(b *behIn) seqOut {
 			name, ok := r.recv(e.C, fmt.Sprintf("child %d waits for %s", e.C, e.X))
 			k := fmt.Sprint(e.C)
 			if !ok {
+				r.blocked(e.C, e.X, "reply", "behaviour")
 				r.note("missing-reply", "child %d: no %s within %s", e.C, e.X, d.tmo)
 				out.Replies[k] = append(out.Replies[k], "")
 				r.abort = true
@@ -896,6 +1018,21 @@ func (d *driver) replay(b *behIn) seqOut {
 	}
 	for _, c := range r.conns {
 		c.Close()
+	}
+	expired := out.Blocked != nil
+	for _, is := range out.Issues {
+		switch is.K {
+		case "missing-call", "missing-reply", "shutdown-hangs", "bad-frame-not-consumed", "no-eof", "behaviour-deadline", "api-hangs":
+			expired = true
+		}
+	}
+	if out.Epilogue.Ran && !out.Epilogue.Done {
+		expired = true
+	}
+	if expired && !out.ParentDied && !d.p.isDead() {
+		// a wait on the real code ran out: whatever state that process is in (stuck, spinning), it is not reused
+		d.p.kill()
+		out.Killed = true
 	}
 	if !out.ParentDied && !d.p.isDead() {
 		d.p.send(pcmd{Cmd: "end"})
@@ -1039,7 +1176,10 @@ collect:
 	cr.Shutdown()
 	r.drainCalls("the child-side calls were over")
 	d.p.send(pcmd{Cmd: "end"})
-	d.p.waitCtl("ended", 5*time.Second)
+	if _, err := d.p.waitCtl("ended", 5*time.Second); err != nil && !d.p.isDead() {
+		d.p.kill()
+		out.Killed = true
+	}
 	return out
 }
 
@@ -1059,13 +1199,15 @@ func seqMain(args []string) error {
 	kill := fs.String("kill", "real", "real: SIGTERM to the re-exec'ed process | hook: the package's kill variable records")
 	logp := fs.String("log", "", "file for stdout/stderr of the parent process")
 	api := fs.Bool("api", false, "also run the package's own child side once")
+	maxHangs := fs.Int("maxhangs", 3, "stop after this many behaviours in which a later child was blocked")
+	waitTmo := fs.Duration("wait", 2*time.Second, "deadline of every single wait on the real code")
 	if err := fs.Parse(args); err != nil {
 		return err
 	}
 	if *logp == "" {
 		*logp = *outp + ".parent.log"
 	}
-	d := &driver{logPath: *logp, hook: *kill == "hook", tmo: 2 * time.Second, badIdx: int(cli.Seed()) * 7, unkIdx: int(cli.Seed()) * 3}
+	d := &driver{logPath: *logp, hook: *kill == "hook", tmo: *waitTmo, behTmo: 15 * time.Second, badIdx: int(cli.Seed()) * 7, unkIdx: int(cli.Seed()) * 3}
 	if *badp != "" {
 		if err := cli.ReadNDJSON(*badp, func(line []byte) error {
 			var v frameIn
@@ -1078,13 +1220,13 @@ func seqMain(args []string) error {
 			return err
 		}
 	}
-	w, err := cli.NewNDJSONWriter(*outp)
+	w, err := newLineWriter(*outp)
 	if err != nil {
 		return err
 	}
 	defer w.Close()
 	if *trp != "" {
-		if d.trace, err = cli.NewNDJSONWriter(*trp); err != nil {
+		if d.trace, err = newLineWriter(*trp); err != nil {
 			return err
 		}
 		defer d.trace.Close()
@@ -1099,7 +1241,8 @@ func seqMain(args []string) error {
 			return err
 		}
 	}
-	return cli.ReadNDJSON(*in, func(line []byte) error {
+	errStop := errors.New("stopped early")
+	err = cli.ReadNDJSON(*in, func(line []byte) error {
 		var b behIn
 		if err := json.Unmarshal(line, &b); err != nil {
 			return err
@@ -1107,6 +1250,22 @@ func seqMain(args []string) error {
 		t0 := time.Now()
 		o := d.replay(&b)
 		o.Ms = time.Since(t0).Milliseconds()
-		return w.Write(o)
+		d.done++
+		if err := w.Write(o); err != nil {
+			return err
+		}
+		if o.Blocked != nil {
+			d.hangs++
+			if d.hangs >= *maxHangs {
+				w.Write(seqOut{ID: -2, Src: "stopped", Issues: []issue{}, Stopped: &stopInfo{After: d.done, Hangs: d.hangs,
+					Why: fmt.Sprintf("a later child was blocked in %d behaviours; the rest would only repeat it", d.hangs)}})
+				return errStop
+			}
+		}
+		return nil
 	})
+	if err == errStop {
+		return nil
+	}
+	return err
 }
